@@ -177,6 +177,8 @@ def run(eng, rep, tier):
                   "minimize() of a non-DFA first determinises",
                   "EpsilonNFA.minimize does not minimise the determinised automaton", s2, site=site_of(prog, f2, f2.node))
 
+    from .c02 import hopcroft_pending_rule
+    hopcroft_pending_rule(eng, ob, "C01.6")
     # ---------------------------------------------------------------- C01.7 names
     names.check(eng, rep, "C01")
     rep.stats.update(eng.stats())
@@ -188,9 +190,8 @@ def check_invariants(eng, rep, ob):
     # eclose is a closure worklist over epsilon successors
     fi = prog.method("EpsilonNFA", "eclose")
     summ = interp.run_entry(fi, ENFA)
-    ok, why, info = is_worklist_closure(fi.node)
-    ob.decide("R10a", "C01.5e", fi, "eclose-is-closure", ok, "eclose is a worklist closure (pop / guarded push / mark)",
-              "eclose is not a closure worklist: " + why, summ, site=site_of(prog, fi, fi.node))
+    ob.worklist("C01.5e", fi, "eclose-is-closure", "eclose is a worklist closure (pop / guarded push / mark)",
+                "eclose is not a closure worklist")
     eps_reads = [ev for ev, _ in calls(summ, "__call__", own=True) if len(ev.args) > 1 and ev.args[1].only(FA_EPSILON)]
     ob.decide("R10a", "C01.5e", fi, "eclose-follows-epsilon", bool(eps_reads) and DELTA_EPS() in deps_of(summ.ret)
               and DELTA_SYM() not in deps_of(summ.ret),
